@@ -75,6 +75,18 @@ def judge(pre, op, post, res, obs, meta):
         # mtime) change - a history that gets no generation is not "in scope" (create -sf only touches the histories on the
         # path to the named files)
         got_manifest = {p.rsplit("/", 1)[0] for p, w in diffs if w == "created" and p.endswith(".mhl") and "/ascmhl/" in p}
+        # what the effective patterns (latest generation of the history at R + those given) exclude is not part of the run
+        gens_R = ref.generations(pre, R)
+        eff = list(ref.read_manifest(gens_R[-1]["bytes"])["ignore"] or []) if gens_R else []
+        eff += [g for g in (o.get("i") or []) if g not in eff]
+        eff = [g for g in eff if g not in ref.DEFAULT_PATTERNS]
+        for p, w in diffs if eff and not o.get("sf") else []:
+            rel = p[5:] if p.startswith("root/") else None
+            if rel and (R == "" or rel.startswith(R + "/")):
+                rr = rel[len(R) + 1:] if R else rel
+                anc = [rr.split("/")[:i] for i in range(1, rr.count("/") + 1)]
+                if any(ref.ignored(eff, "/".join(a), True) for a in anc):
+                    V("create-touched-excluded-folder", f"{ops.label(op)}: {rel} {w} although a folder above it is excluded by {eff}", what=w)
         for p, w in diffs:
             if not (p == "root" or p.startswith("root/")):
                 V("create-outside-root", f"{ops.label(op)}: {p} {w}", what=w)
@@ -184,6 +196,11 @@ def states(ctx):
     left["d/ascmhl/ascmhl_chain.xml.tmp"] = b""
     left["d/ascmhl/notes.txt"] = b"a note somebody left here"
     S["nested-with-leftovers"] = left
+    # a nested history inside a folder that the enclosing history excludes (pattern recorded in its latest generation), plus a
+    # file that is new: nothing below the excluded folder may be touched by any form of create
+    ign = ops.build(ctx, T, [c("d", ["md5"]), c("", ["xxh64"], i=["d/"])], expect=[0, 0])
+    if ign is not None:
+        S["nested-excluded+new-file"] = ops.edit(ign, ["write", "fresh.bin", b"new file"])
     return S
 
 
